@@ -96,9 +96,9 @@ static std::vector<Whole> c10_wholes() {
     }
     for (int k3 : {201, 202}) {
         bytes redeem; rep(redeem, "61", k3); redeem.push_back(0x51);
-        bytes sig; rep(sig, "61", 201); bytes pr = ref::push_raw(redeem); sig.insert(sig.end(), pr.begin(), pr.end());
+        bytes sig = ref::push_raw(redeem);   // BIP16: the scriptSig of a P2SH spend is push-only
         bytes spk = ref::unhex("a914"); bytes h = ref::hash160(redeem); spk.insert(spk.end(), h.begin(), h.end()); spk.push_back(0x87);
-        W.push_back({"P2SH: scriptSig nop*201 <redeem>, redeem nop*" + std::to_string(k3) + " 1", ref::SigVer::BASE, ref::F_P2SH, sig, spk, {}});
+        W.push_back({"P2SH: scriptSig <redeem>, redeem nop*" + std::to_string(k3) + " 1", ref::SigVer::BASE, ref::F_P2SH, sig, spk, {}});
     }
     return W;
 }
@@ -113,6 +113,7 @@ static ref::Err ref_phases(const Whole& w, std::vector<bytes>& stack) {
     if (e != ref::Err::OK) return e;
     if ((w.flags & ref::F_P2SH) && ref::is_p2sh(w.successor)) {
         if (stack.empty() || !ref::cast_to_bool(stack.back())) return ref::Err::EVAL_FALSE;
+        if (!ref::is_push_only(w.script)) return ref::Err::SIG_PUSHONLY;
         stack = copy;
         bytes redeem = stack.back(); stack.pop_back();
         e = ref::eval_script(stack, redeem, w.flags, ref::SigVer::BASE, nullptr);
